@@ -169,8 +169,8 @@ def run_shard(spec, col):
     combos = boot.switch_sets()
     # each of the 4 shards of a language takes 4 of the 16 combinations
     mine = combos[spec['part'] * 4: spec['part'] * 4 + 4]
-    per_combo_seed = 3 if quick else 60
-    per_combo_tape = 10 if quick else 250
+    per_combo_seed = 7 if quick else 60
+    per_combo_tape = 12 if quick else 250
     for sw in mine:
         def seed_case(x, sw=sw):
             seed, limits = x
